@@ -373,6 +373,10 @@ class Filterbank(ABC):
         maximum dispersion delay.
         """
         chan_delays = self.header.get_dmdelays(dm)
+        # Channels that lead the reference (ascending band, negative DM) have
+        # negative delays: count them from the earliest channel instead
+        min_delay = min(0, int(chan_delays.min()))
+        chan_delays = chan_delays - min_delay
         max_delay = int(chan_delays.max())
         gulp = max(2 * max_delay, gulp)
         nsamps_range = (self.header.nsamples - start) if nsamps is None else nsamps
@@ -401,7 +405,7 @@ class Filterbank(ABC):
                     "nchans": 1,
                     "dm": dm,
                     "nsamples": tim_len,
-                    "tstart": self.header.mjd_after_nsamps(start),
+                    "tstart": self.header.mjd_after_nsamps(start - min_delay),
                 },
             ),
         )
@@ -1065,6 +1069,10 @@ class Filterbank(ABC):
         """
         subfactor = self.header.nchans // nsub
         chan_delays = self.header.get_dmdelays(dm)
+        # Channels that lead the reference (ascending band, negative DM) have
+        # negative delays: count them from the earliest channel instead
+        min_delay = min(0, int(chan_delays.min()))
+        chan_delays = chan_delays - min_delay
         max_delay = int(chan_delays.max())
         gulp = max(2 * max_delay, gulp)
         # must be memset to zero in c code
@@ -1078,7 +1086,7 @@ class Filterbank(ABC):
             "dm": dm,
             "nchans": nsub,
             "nbits": 32,
-            "tstart": self.header.mjd_after_nsamps(start),
+            "tstart": self.header.mjd_after_nsamps(start - min_delay),
         }
         if outfile_name is None:
             outfile_name = f"{self.header.basename}_DM{dm:06.2f}.subbands"
@@ -1173,6 +1181,10 @@ class Filterbank(ABC):
             raise ValueError(msg)
         nbands = min(nbands, self.header.nchans)
         chan_delays = self.header.get_dmdelays(dm)
+        # Channels that lead the reference (ascending band, negative DM) have
+        # negative delays: count them from the earliest channel instead
+        min_delay = min(0, int(chan_delays.min()))
+        chan_delays = chan_delays - min_delay
         max_delay = int(chan_delays.max())
         gulp = max(2 * max_delay, gulp)
         fold_ar = np.zeros(nbins * nints * nbands, dtype="float32")
@@ -1199,7 +1211,7 @@ class Filterbank(ABC):
                 nbins,
                 nints,
                 nbands,
-                ii * (gulp - max_delay),
+                ii * (gulp - max_delay) - min_delay,
             )
         fold_ar /= count_ar
         fold_ar = fold_ar.reshape(nints, nbands, nbins)
